@@ -203,14 +203,6 @@ def obsW (r : Env × Except Err (List (List Char))) : String :=
   | (env, .ok fs) => showFields fs ++ " v=" ++ showVars env
   | (env, .error e) => "err=" ++ showErr e ++ " v=" ++ showVars env
 
-/-- `expand_word_multiple` with the recursive POSIX splitter in place of the state machine -/
-def specExpandWordMultiple (env : Env) (w : Word) : Env × Except Err (List (List Char)) :=
-  match expandWord env true w with
-  | (env', .error e) => (env', .error e)
-  | (env', .ok ph) =>
-    let ifs := env'.ifs
-    (env', .ok ((ph.toFields.flatMap (specFields ifs.classifyAttr)).map removeQuotesAndStrip))
-
 def obsR (st : Bool) (vals : List (List Char)) : String :=
   let names := (List.range vals.length).map (fun k => s!"v{k+1}")
   s!"st={if st then 0 else 1} v=" ++ ",".intercalate ((names.zip vals).map (fun (n, v) => n ++ ":" ++ encChars v))
